@@ -45,6 +45,10 @@ PROP = {
         {"target": "c19_codecs_rc", "sub": "md5_long", "replay_alarm": 900, "env": _ENV,
          "quick": {"cases": 2, "max_size": 10, "workers": 1},
          "thorough": {"cases": 30, "max_size": 10, "workers": 1}},
+        # C19(b): Hypothesis differential against Python's hashlib/zlib/binascii/base64/urllib + a vendored FIPS-197 AES,
+        # driving the persistent ASan-built helper process c19_pyhelper (engine wired into ./check as "script")
+        {"target": "c19_pyhelper", "sub": "pydiff", "script": "C19/diff_py.py",
+         "quick": {"examples": 300, "workers": 1}, "thorough": {"examples": 20000, "workers": 2}},
     ],
     "assumptions": [
         "functions that TBOX_ASSERT a precondition are only called within it: base64 Encode gets a non-empty input and a non-zero capacity, MD5::update a non-null pointer, AES a 16-byte key/block",
